@@ -38,6 +38,8 @@ class SCase:
         self.file = content(t[6])
         self.events = []
         for e in t[7:]:
+            if e[0] == "S" and e[1:].isdigit():
+                continue       # cost of one send on the simulated clock: not an event
             if e == "T":
                 self.events.append(("fail", None, self.tmo))
             else:
